@@ -8,5 +8,16 @@ def build(repo, tier, seed):
     b["assumptions"].append("Dataset: evaluates to callback(implementation), both evaluated under mix(mix(default options, caller's options), pre-set options), proved compositionally: the temporaries "
                             "of Dataset._composed are used through the C05 specifications proved for WithOptions, Cached, Logged, Computation and Apply (spec_c05.tower_contracts), "
                             "effects that do not fail (region F15) and a sound cache backend (B-sound)")
+    from . import collections_c05
+    from .common import fn_hashes
+    c_syn, c_und = collections_c05.obligations(repo)
+    b["syntactic"] += c_syn
+    b["undecided"] += c_und
+    fns, hs = fn_hashes(repo, ["labrea.collections:evaluatable_list", "labrea.collections:evaluatable_tuple", "labrea.collections:evaluatable_set", "labrea.collections:evaluatable_dict"])
+    b["functions"] += fns
+    b["hashes"].update(hs)
+    b["group_hashes"]["collections:C05"] = hs
+    b["assumptions"].append("collections (evaluatable_list/tuple/set/dict): proved to build Iter(members in order).apply(<constructor>), for dict over the (Value(key), value) pairs of the dictionary as it is at "
+                            "construction; with the specifications of Iter and Apply this is 'collections keep order' (group collections:C05)")
     b["assumptions"].append("spec terms are written from the property statement (contracts/spec_c05.py); Python operators and user callables are uninterpreted")
     return b
